@@ -46,7 +46,7 @@ def run(tier):
     jobs, texts = [], {}
     os.makedirs(os.path.join(c.run_dir, "files"), exist_ok=True)
     for n, e in enumerate(models):
-        xml = xmlgen.render_xml(docgen.to_xmlgen(e["m"]), cdata=(n % 5 == 2), rate_first=(n % 7 == 3))      # alternative spellings of the same document
+        xml = xmlgen.render_xml(docgen.to_xmlgen(e["m"]), cdata=(n % 5 == 2), rate_first=(n % 7 == 3), comments=(n % 4 if n % 4 < 3 else 0))      # alternative spellings of the same document
         texts[n] = xml
         jobs.append({"id": "b%d" % n, "entry": "xml_buffer", "text": xml})
         if n % (4 if quick else 2) == 0:       # the file entry point parses with XML_PARSE_NOBLANKS: a different reader event stream
